@@ -3150,6 +3150,50 @@ func c12KeptImpliesWalked(c *Ctx, pk *packages.Package) {
 			return true
 		})
 	}
+	if !foundA {
+		// the same question asked without a switch (`if mode == inclusionModeUnknown { return … }`): on SSA, the
+		// returns reached over the edge where the mode compared equal to the Unknown constant
+		for _, sf := range p.SSAFuncsOf([]*packages.Package{pk}) {
+			if sf.Name() != "hasType" {
+				continue
+			}
+			for _, r := range returnsOf(sf) {
+				if len(r.Results) != 1 {
+					continue
+				}
+				for _, ge := range guardingEdges(r.Block()) {
+					cv, pos := condPolarity(ge.If.Cond)
+					bo, ok := cv.(*ssa.BinOp)
+					if !ok || (bo.Op != token.EQL && bo.Op != token.NEQ) {
+						continue
+					}
+					isUnknown := func(v ssa.Value) bool {
+						k, ok := v.(*ssa.Const)
+						if !ok || k.Value == nil {
+							return false
+						}
+						for _, name := range pk.Types.Scope().Names() {
+							if cst, ok := pk.Types.Scope().Lookup(name).(*types.Const); ok && strings.Contains(name, "Unknown") && types.Identical(cst.Type(), k.Type()) && cst.Val().ExactString() == k.Value.ExactString() {
+								return true
+							}
+						}
+						return false
+					}
+					if !isUnknown(bo.X) && !isUnknown(bo.Y) {
+						continue
+					}
+					holds := ge.Branch == pos
+					if (bo.Op == token.EQL) != holds {
+						continue
+					}
+					foundA = true
+					if k, isConst := stripConv(spilledResult(r, r.Results[0])).(*ssa.Const); !isConst || k.Value == nil || k.Value.ExactString() != "false" {
+						unknownKept = true
+					}
+				}
+			}
+		}
+	}
 	// (B) the include-everything walk skips import files
 	skipsImports, foundB := false, false
 	// (wherever in the package the walk is seeded from the image's files: filterImage or a function split off it)
